@@ -80,7 +80,13 @@ pub enum Step {
     /// a small DATAGRAM frame (fills the receive buffer with many entries)
     DgramSmall { len: u8 },
     Crypto { delta: i8, len: u16 },
-    Read { st: StSel, max: u32 },
+    Read {
+        st: StSel,
+        max: u32,
+        /// unordered read (from then on every read of the stream is unordered)
+        #[serde(default)]
+        unordered: bool,
+    },
     Stop { st: StSel },
     FinishSend { st: StSel },
     SetRecvWindow(u32),
@@ -137,6 +143,10 @@ struct RS {
     /// the application saw the terminal outcome (end of stream or reset) or dropped its state
     terminal_read: bool,
     send_done: bool,
+    /// the application has switched to unordered reads; `read` then counts consumed bytes and
+    /// `delivered` holds what unordered reads returned
+    unordered: bool,
+    delivered: Vec<(u64, u64)>,
 }
 
 impl RS {
@@ -437,7 +447,12 @@ impl<'a> Run<'a> {
         // by the assembler's documented defragmentation threshold (32 KiB or 1.5x per stream) plus
         // one packet per stream
         let bound = unread * 5 / 2 + open * (32768 + 1500);
-        if pr.streams.recv_allocated as u64 > bound {
+        // (`allocated` is quinn's own estimate and counts the packet once per piece kept from it; a frame
+        // that an unordered stream cuts into many pieces around data it already has is counted many
+        // times over until the next arrival, although the pieces share one buffer: with unordered
+        // streams the bytes actually held are bounded instead)
+        let held = if self.m.streams.values().any(|s| s.unordered) { pr.streams.recv_buffered } else { pr.streams.recv_allocated };
+        if held as u64 > bound {
             return Err(CaseOut::fail(
                 "c06/buffer/stream-allocation",
                 format!("after {what}: receive assemblers hold {} allocated bytes ({} buffered) for {} unread bytes on {} streams (bound {bound})", pr.streams.recv_allocated, pr.streams.recv_buffered, unread, open),
@@ -767,7 +782,7 @@ impl<'a> Run<'a> {
                 self.labels.push("crypto-frame");
                 Ok(closed)
             }
-            Step::Read { st, max } => {
+            Step::Read { st, max, unordered } => {
                 let Some(id) = self.resolve(st) else { return Ok(false) };
                 if !self.app_knows(id) {
                     return Ok(false);
@@ -775,12 +790,21 @@ impl<'a> Run<'a> {
                 self.accept_all()?;
                 let k = self.pw.vk.unwrap();
                 let sid = stream_id(id);
+                let ordered = {
+                    let s = self.m.streams.entry(id).or_default();
+                    if *unordered && !s.unordered {
+                        s.unordered = true;
+                        // everything below the ordered read position has been delivered
+                        s.delivered.push((0, s.read));
+                    }
+                    !s.unordered
+                };
                 let mut got: Vec<(u64, Vec<u8>)> = vec![];
                 let mut outcome = "blocked";
                 {
                     let c = &mut self.pw.w.conns[k].c;
                     let mut rs = c.recv_stream(sid);
-                    let res = rs.read(true);
+                    let res = rs.read(ordered);
                     match res {
                         Ok(mut chunks) => {
                             let mut left = *max as usize;
@@ -811,7 +835,13 @@ impl<'a> Run<'a> {
                 }
                 let s = self.m.streams.entry(id).or_default();
                 for (off, b) in &got {
-                    if *off != s.read {
+                    if !ordered {
+                        let (lo, hi) = (*off, *off + b.len() as u64);
+                        if let Some((a, z)) = s.delivered.iter().find(|(a, z)| lo < *z && *a < hi) {
+                            return Err(CaseOut::fail("c06/read/duplicate", format!("{what}: unordered read returned bytes {lo}..{hi} of stream {id}, bytes {a}..{z} had been delivered before")));
+                        }
+                        s.delivered.push((lo, hi));
+                    } else if *off != s.read {
                         return Err(CaseOut::fail("c06/read/offset", format!("{what}: ordered read returned offset {off}, expected {}", s.read)));
                     }
                     if *off + b.len() as u64 > s.end {
@@ -848,7 +878,7 @@ impl<'a> Run<'a> {
                 }
                 if !got.is_empty() {
                     self.limit_moved = true;
-                    self.labels.push("read");
+                    self.labels.push(if ordered { "read" } else { "read-unordered" });
                 }
                 self.pw.touch();
                 if !self.pw.sync(2_000_000) {
@@ -1209,7 +1239,7 @@ fn arb_step() -> impl Strategy<Value = Step> {
         5 => (prop_oneof![4 => -3i16..=0, 1 => 1i16..=3], any::<bool>()).prop_map(|(delta, with_len)| Step::Dgram { delta, with_len }),
         4 => (0u8..60).prop_map(|len| Step::DgramSmall { len }),
         2 => (arb_delta(), 1u16..600).prop_map(|(delta, len)| Step::Crypto { delta, len }),
-        14 => (arb_stsel(), prop_oneof![1u32..100, 100u32..100_000]).prop_map(|(st, max)| Step::Read { st, max }),
+        14 => (arb_stsel(), prop_oneof![1u32..100, 100u32..100_000], prop::bool::weighted(0.2)).prop_map(|(st, max, unordered)| Step::Read { st, max, unordered }),
         3 => arb_stsel().prop_map(|st| Step::Stop { st }),
         2 => arb_stsel().prop_map(|st| Step::FinishSend { st }),
         2 => prop_oneof![0u32..2000, 2000u32..100_000].prop_map(Step::SetRecvWindow),
